@@ -261,7 +261,13 @@ func cmdRun(args []string) int {
 			v.Case.Site = v.Site
 			v.Case.Detail = v.Detail
 			desc := fmt.Sprintf("%s label=%s kind=%s site=%s kf=%v outside=%v", ob.Name, v.Label, v.Kind, v.Site, v.KFs, v.Outside)
-			oe.Violations = append(oe.Violations, desc)
+			dupDesc := false
+			for _, d := range oe.Violations {
+				dupDesc = dupDesc || d == desc
+			}
+			if !dupDesc {
+				oe.Violations = append(oe.Violations, desc)
+			}
 			if *casesDir != "" {
 				os.MkdirAll(*casesDir, 0o755)
 				p := filepath.Join(*casesDir, fmt.Sprintf("%s-%s-%d.json", ob.Name, cleanName(v.Label), caseN))
@@ -269,7 +275,8 @@ func cmdRun(args []string) int {
 					*CaseFile
 					KFs     []string `json:"known_finding_classes"`
 					Outside bool     `json:"outside_known_classes"`
-				}{v.Case, v.KFs, v.Outside}, "", " ")
+					Group   string   `json:"group"`
+				}{v.Case, v.KFs, v.Outside, fmt.Sprintf("%s|%s|%s|%s|%v|%v", ob.Name, v.Label, v.Kind, v.Site, v.KFs, v.Outside)}, "", " ")
 				os.WriteFile(p, b, 0o644)
 				res.Cases = append(res.Cases, p)
 			}
